@@ -1,15 +1,18 @@
 package graphfam
 
 import (
-	"github.com/EliCDavis/polyform/generator/schema"
 	"bufio"
 	"bytes"
 	"crypto/sha256"
 	"encoding/json"
 	"fmt"
+	"github.com/EliCDavis/polyform/generator/schema"
+	"io"
+	"log"
 	"math"
 	"math/rand"
 	"os"
+	"path/filepath"
 	"sort"
 	"strconv"
 	"strings"
@@ -280,19 +283,20 @@ type geProj struct {
 }
 
 type geLine struct {
-	K      string  `json:"k"`
-	St     GEStep  `json:"st"`
-	Ok     bool    `json:"ok"`     // the edit call returned without panic
-	LoadOk bool    `json:"loadok"` // ApplySchema into a fresh App succeeded
-	Orig   geProj  `json:"orig"`
-	Reload geProj  `json:"reload"`
-	H1     []int   `json:"h1"`
-	H2     []int   `json:"h2"`
-	H      int     `json:"h"`
-	I      int     `json:"i"`
-	Note   string  `json:"note"`
-	Bytes  int     `json:"bytes"`
-	Skip   bool    `json:"skip"` // no save/reload/evaluation after this step (sparse observation)
+	K      string `json:"k"`
+	St     GEStep `json:"st"`
+	Ok     bool   `json:"ok"`     // the edit call returned without panic
+	LoadOk bool   `json:"loadok"` // ApplySchema into a fresh App succeeded
+	Orig   geProj `json:"orig"`
+	Reload geProj `json:"reload"`
+	H1     []int  `json:"h1"`
+	H2     []int  `json:"h2"`
+	HF     []int  `json:"hf"` // digest of the FILE the application's saver wrote (one file per history, saved over and over)
+	H      int    `json:"h"`
+	I      int    `json:"i"`
+	Note   string `json:"note"`
+	Bytes  int    `json:"bytes"`
+	Skip   bool   `json:"skip"` // no save/reload/evaluation after this step (sparse observation)
 }
 
 var metaPaths = map[int]string{1: "notes.n1.text", 2: "nodes.Node-0.position", 3: "top"}
@@ -547,9 +551,13 @@ func runGE(enc *json.Encoder, h int, hist GEHistory, stride int) {
 		app.WebScene = &schema.WebScene{AntiAlias: true, XrEnabled: h%3 == 0}
 	}
 	app.VerifGraph()
-	_ = enc.Encode(geLine{K: "reset", H: h, Orig: emptyProj(), Reload: emptyProj(), H1: []int{}, H2: []int{}})
+	// "saving the graph" as the edit server does it: the application's GraphSaver writes ONE file again and
+	// again while the history goes on (documents grow and shrink); what is in the file is what a user loads
+	savePath := filepath.Join(os.TempDir(), fmt.Sprintf("vh-graphedit-%d-%d.json", os.Getpid(), h))
+	defer os.Remove(savePath)
+	_ = enc.Encode(geLine{K: "reset", H: h, Orig: emptyProj(), Reload: emptyProj(), H1: []int{}, H2: []int{}, HF: []int{}})
 	for i, st := range hist.Steps {
-		ln := geLine{K: "step", St: st, H: h, I: i, H1: []int{}, H2: []int{}, Orig: emptyProj(), Reload: emptyProj()}
+		ln := geLine{K: "step", St: st, H: h, I: i, H1: []int{}, H2: []int{}, HF: []int{}, Orig: emptyProj(), Reload: emptyProj()}
 		ln.Ok = applyEdit(app, st)
 		// with stride > 1 the application is neither saved nor evaluated after most steps, so that
 		// several edits happen between two evaluations of the edited instance
@@ -567,6 +575,14 @@ func runGE(enc *json.Encoder, h int, hist GEHistory, stride int) {
 			save1 := app.Schema()
 			ln.Bytes = len(save1)
 			ln.H1 = hash3(save1)
+			ln.HF = []int{-1}
+			func() {
+				defer func() { recover() }()
+				app.VerifSaver(savePath).Save()
+				if fb, err := os.ReadFile(savePath); err == nil {
+					ln.HF = hash3(fb)
+				}
+			}()
 			ln.Orig = projectApp(app)
 			app2, ok := reloadApp(save1)
 			ln.LoadOk = ok
@@ -584,6 +600,7 @@ func runGE(enc *json.Encoder, h int, hist GEHistory, stride int) {
 
 // RunGraphEdit executes edit histories and writes the trace.
 func RunGraphEdit(in, out string, stride int) error {
+	log.SetOutput(io.Discard) // GraphSaver.Save logs every write
 	fi, err := os.Open(in)
 	if err != nil {
 		return err
@@ -860,9 +877,9 @@ func GenGraphEdit(out string, seed int64, n, steps int) error {
 	for h := 0; h < n; h++ {
 		r := rand.New(rand.NewSource(seed*15485863 + int64(h)))
 		hist := GEHistory{Steps: []GEStep{}, Tag: "random"}
-		ids := map[int]int{}          // id -> type
-		single := map[[2]int]int{}    // (node, port) -> src
-		arr := map[int][]int{}        // node -> sources
+		ids := map[int]int{}       // id -> type
+		single := map[[2]int]int{} // (node, port) -> src
+		arr := map[int][]int{}     // node -> sources
 		deps := func(nid int) []int {
 			out := append([]int{}, arr[nid]...)
 			for k, s := range single {
